@@ -30,7 +30,11 @@ class Ctx:
         self.t0 = time.time()
 
     def bdir(self, variant):
-        d = os.path.join(self.verif, "build", variant)
+        tag = variant
+        if os.path.realpath(self.repo) != "/repo":
+            # scratch copies of the repository (sensitivity selftest, seeded changes) get their own build directory
+            tag += "-" + hashlib.sha1(os.path.realpath(self.repo).encode()).hexdigest()[:8]
+        d = os.path.join(self.verif, "build", tag)
         os.makedirs(d, exist_ok=True)
         return d
 
@@ -388,6 +392,9 @@ def signature(res, syms):
     div = res.get("diverged", [])
     if div:
         sig["diverged_ops"] = sorted(set(d["name"].split(":")[0] for d in div))
+    if res.get("crash"):
+        sig["crash_op"] = res["crash"].get("op", "?").split(":")[0]
+        sig["crash_signal"] = res["crash"].get("sig") or res["crash"].get("wsig")
     return sig
 
 
@@ -402,6 +409,8 @@ def sig_key(sig):
         k.append(",".join(sig.get("diverged_ops", [])[:1]))
         if "object" in sig:
             k.append(sig["object"])
+    elif sig["class"] == "crash":
+        k.append(sig.get("crash_op"))
     return tuple(k)
 
 
@@ -417,6 +426,8 @@ def sig_compatible(sig, target):
         a = set(sig.get("diverged_ops", []))
         b = set(target.get("diverged_ops", []))
         return bool(a & b) and sig.get("object") == target.get("object")
+    if target["class"] == "crash":
+        return sig.get("crash_op") == target.get("crash_op")
     return True
 
 
@@ -448,10 +459,14 @@ def ddmin(items, test, budget):
     return items
 
 
-def minimise(runner, syms, pl, target, max_execs=260):
+def minimise(runner, syms, pl, target, max_execs=260, max_seconds=45.0):
     budget = [max_execs]
+    t_stop = time.time() + max_seconds
 
     def holds(q):
+        if time.time() > t_stop:
+            budget[0] = 0
+            return False
         rc, res, _ = runner.exec_plan(plan_text(q))
         if res is None:
             return False
@@ -534,13 +549,15 @@ def describe_sig(sig):
         s += " in " + ", ".join(sig["functions"][:4])
     if sig.get("diverged_ops"):
         s += "; wrong result of " + ",".join(sig["diverged_ops"][:3])
+    if sig.get("crash_op"):
+        s += "; signal %s while a task was inside %s" % (sig.get("crash_signal"), sig["crash_op"])
     return s
 
 
 SW_CAUSE = {0: "strategy", 1: "forced:blocked", 2: "forced:finished", 3: "fault:preempt", 4: "fault:stall", 5: "fair/yield"}
 
 
-def process_candidate(ctx, runner, syms, cand_path, variant, found_rec, known, outdir):
+def process_candidate(ctx, runner, syms, cand_path, variant, found_rec, known, outdir, max_seconds=45.0):
     """gate -> minimise -> gate again -> replay file.  Returns dict(status=..., ...)."""
     text = open(cand_path).read()
     rc, res, err = runner.exec_plan(text)
@@ -554,10 +571,9 @@ def process_candidate(ctx, runner, syms, cand_path, variant, found_rec, known, o
     if res.get("clsbits", 0) & BITS["machinery"]:
         return {"status": "machinery", "why": "machinery-class outcome: " + json.dumps(res)[:800]}
     pl = parse_plan(text)
-    if pl["sched"][0] != "explicit":
-        # use the schedule that was just taken
-        return {"status": "machinery", "why": "candidate without explicit schedule"}
-    pl_min, used = minimise(runner, syms, pl, sig)
+    # a candidate normally carries the explicit schedule that was taken; if the log did not fit it
+    # carries the seeded strategy instead, which is just as deterministic (only tasks/ops are minimised)
+    pl_min, used = minimise(runner, syms, pl, sig, max_seconds=max_seconds)
     mtext = plan_text(pl_min)
     rc1, r1, _ = runner.exec_plan(mtext)
     rc2, r2, _ = runner.exec_plan(mtext)
@@ -640,8 +656,8 @@ def c18_replay(ctx, path):
 
 TIERS = {
     # simulated seconds, schedules per workload, determinism sample (workloads)
-    "quick": {"budget": 45.0, "scheds": 12, "twice_budget": 6.0, "variants": ["O1"]},
-    "thorough": {"budget": 900.0, "scheds": 40, "twice_budget": 60.0, "variants": ["O1", "O2A"]},
+    "quick": {"budget": 45.0, "scheds": 12, "twice_budget": 6.0, "variants": ["O1"], "groups": 5, "min_seconds": 40.0},
+    "thorough": {"budget": 900.0, "scheds": 40, "twice_budget": 60.0, "variants": ["O1", "O2A"], "groups": 10, "min_seconds": 180.0},
 }
 
 
@@ -698,11 +714,11 @@ def c18_check(ctx, tier, budget=None, write_evidence=True, family=None, op=None)
                 sg = signature(r, syms)
                 groups.setdefault(sig_key(sg), []).append(r)
         runner = Runner(ctx, exe, "c18-%s" % variant)
-        outdir = os.path.join(ctx.verif, "replays")
-        for key, rs in list(groups.items())[:8]:
+        outdir = os.environ.get("VERIF_REPLAY_DIR") or os.path.join(ctx.verif, "replays")
+        for key, rs in list(groups.items())[:T["groups"]]:
             res = None
             for r in rs[:3]:
-                res = process_candidate(ctx, runner, syms, r["cand"], variant, r, known, outdir)
+                res = process_candidate(ctx, runner, syms, r["cand"], variant, r, known, outdir, T["min_seconds"])
                 if res["status"] != "machinery":
                     break
             if res["status"] == "machinery":
@@ -711,8 +727,8 @@ def c18_check(ctx, tier, budget=None, write_evidence=True, family=None, op=None)
                 known_hits.append(res)
             else:
                 viol.append(res)
-        if len(groups) > 8:
-            log("note: %d further candidate groups were not minimised" % (len(groups) - 8))
+        if len(groups) > T["groups"]:
+            log("note: %d further candidate groups were not minimised" % (len(groups) - T["groups"]))
     wall = time.time() - t_start
     if agg.twice_total and agg.twice_same != agg.twice_total:
         machinery.append("determinism sample: %d of %d runs differed between two fresh processes" %
@@ -939,7 +955,8 @@ def selftest(ctx, which):
         return selftest_determinism(ctx)
     if which == "sensitivity":
         import sensitivity
-        return sensitivity.run(ctx)
+        only = os.environ.get("VERIF_MUTANTS")
+        return sensitivity.run(ctx, only.split(",") if only else None)
     log("unknown selftest")
     return 2
 
